@@ -8,42 +8,6 @@ with that origin left open. `PX`: the simulation statement for `Frag.okXE`.
 namespace HmsProofs.Sim
 open Hms.Core Hms.Core.Comp Hms.Core.VM
 
-/-- `SimGE` with the origin of the pushed value left open. -/
-def SimOE (G : GCtx) (A : Act) (ip n : Nat) (stk : List SVal) (mem : Mem) (st : St)
-    (r : Except Ctl Val × St) : Prop :=
-  match r with
-  | (.ok v, st') =>
-    st' = { st with out := st'.out, heap := st'.heap } ∧
-      ∃ mem' o, Runs G.fr G.code G.lim G.s A.fn A.rest A.mp ip stk mem st.world (ip + n) (⟨v, o⟩ :: stk) mem' st'.world ∧
-        MemLe G.fr A.mp mem mem'
-  | (.error c, st') => SimGE G A ip n stk mem st (.error c, st')
-
-theorem SimOE.of_simGE {G A ip n stk mem st r} (h : SimGE G A ip n stk mem st r) : SimOE G A ip n stk mem st r := by
-  obtain ⟨r1, st1⟩ := r
-  cases r1 with
-  | error c => exact h
-  | ok v =>
-    obtain ⟨hfr, mem1, hrun, hml⟩ := h
-    exact ⟨hfr, mem1, none, hrun, hml⟩
-
-theorem evalExpr_index (cfg fuel sp ty b i st) :
-    evalExpr cfg (fuel + 1) (.index sp ty b i) st =
-      match evalExpr cfg fuel b st with
-      | (.ok bv, st1) =>
-        (match evalExpr cfg fuel i st1 with
-          | (.ok iv, st2) => indexVal bv iv sp st2
-          | (.error c, st2) => (.error c, st2))
-      | (.error c, st1) => (.error c, st1) := by
-  rw [evalExpr, M_bind]
-  rcases evalExpr cfg fuel b st with ⟨r1, st1⟩
-  cases r1 with
-  | error c => rfl
-  | ok bv =>
-    simp only []
-    rw [M_bind]
-    rcases evalExpr cfg fuel i st1 with ⟨r2, st2⟩
-    cases r2 <;> rfl
-
 /-- The statement for `Frag.okXE`. -/
 def PX (G : GCtx) (fuel : Nat) : Prop :=
   ∀ (A : Act), A.OK G → ∀ (e : Expr) (st : St) (ip : Nat) (stk : List SVal) (mem : Mem) (lm : LM)
@@ -52,107 +16,6 @@ def PX (G : GCtx) (fuel : Nat) : Prop :=
     Placed A.lab A.σ A.c ip (cgE G.mod (ρS scopes) A.φ e lm).1 →
     StRel G.mod A.T A.N A.σ G.lim A.mp scopes vm st.scopes mem → SpecOK G A.mp st →
     SimOE G A ip (nI (cgE G.mod (ρS scopes) A.φ e lm).1) stk mem st (evalExpr G.cfg fuel e st)
-
-theorem SimOE.error_after {G : GCtx} {A : Act} {ip n stk mem st c st1 ip1 mem1} {st0 : St} (n' : Nat)
-    (ys : List SVal)
-    (h0 : Runs G.fr G.code G.lim G.s A.fn A.rest A.mp ip stk mem st0.world ip1 (ys ++ stk) mem1 st.world)
-    (hfr : st = { st0 with out := st.out, heap := st.heap }) (hml : MemLe G.fr A.mp mem mem1)
-    (h : SimOE G A ip1 n (ys ++ stk) mem1 st (.error c, st1)) : SimOE G A ip n' stk mem st0 (.error c, st1) :=
-  SimGE.error_after n' ys h0 hfr hml h
-
-/-- `Index` after the base and the index: the specification's `indexVal`. -/
-theorem index_runs (G : GCtx) (A : Act) (hA : A.OK G) (sp : Span) (ip : Nat) (stk : List SVal) (mem : Mem)
-    (st : St) (bv iv : Val) (ob oi : Option Org) (hx : A.c[ip]? = some (.index, sp)) :
-    match indexVal bv iv sp st with
-    | (.ok v, _) => Runs G.fr G.code G.lim G.s A.fn A.rest A.mp ip (⟨iv, oi⟩ :: ⟨bv, ob⟩ :: stk) mem st.world
-        (ip + 1) (⟨v, idxOrg st.heap bv iv⟩ :: stk) mem st.world
-    | (.error (.fatal kd m fsp), _) =>
-      RunsF G.code G.lim G.s A.fn A.rest A.mp ip (⟨iv, oi⟩ :: ⟨bv, ob⟩ :: stk) mem st.world kd m fsp st.world
-    | (.error (.unsupported _), _) => True
-    | _ => False := by
-  obtain ⟨hst, hheap, herr⟩ := indexVal_shape bv iv sp st
-  have hvm : ∀ it, (indexVal bv iv sp { (withIt G.s it).st with heap := st.world.heap, out := st.world.out }).1 =
-      (indexVal bv iv sp st).1 := fun it =>
-    (indexVal_shape bv iv sp st).2.1 _ rfl
-  rcases hr : indexVal bv iv sp st with ⟨r, st'⟩
-  rw [hr] at hvm herr
-  simp only at hvm herr
-  cases r with
-  | ok v =>
-    refine Runs.of_exec1 (fr := G.fr) (mem := mem) (fun it_ k => ?_)
-    rw [mkS_index G.code G.lim (withIt G.s it_) A.fn ip A.rest A.mp k stk mem.cells st.world A.c hA.code sp bv iv ob oi hx,
-      hvm it_]
-    rfl
-  | error c =>
-    rcases herr c rfl with ⟨kd, m, rfl⟩ | ⟨w, rfl⟩
-    · intro k
-      refine ⟨1, mkS (withIt G.s mem.it) (⟨A.fn, ip⟩ :: A.rest) A.mp (k + 1) stk mem.cells st.world, ?_, rfl, rfl⟩
-      rw [execHN_one]
-      apply exec1H_of_fatal
-      show exec1 G.code G.lim (mkS (withIt G.s mem.it) (⟨A.fn, ip⟩ :: A.rest) A.mp k (⟨iv, oi⟩ :: ⟨bv, ob⟩ :: stk) mem.cells
-        st.world) = _
-      rw [mkS_index G.code G.lim (withIt G.s mem.it) A.fn ip A.rest A.mp k stk mem.cells st.world A.c hA.code sp bv iv ob oi
-        hx, hvm mem.it]
-      rfl
-    · trivial
-
-theorem memberVal_dot_heap (b : Val) (name : String) (sp : Span) (st st' : St) (h : st'.heap = st.heap) :
-    (memberVal b name .dot sp st').1 = (memberVal b name .dot sp st).1 := by
-  rw [memberVal_dot, memberVal_dot]
-  cases b <;> try rfl
-  case ref a =>
-    simp only [h]
-    cases st.heap[a]? with
-    | none => rfl
-    | some c =>
-      cases c <;> try rfl
-      rename_i fs; simp only []; cases fs.lookup name <;> rfl
-  case range x y i =>
-    simp only []
-    split
-    · rfl
-    · split <;> rfl
-
-theorem memberVal_dot_error (b : Val) (name : String) (sp : Span) (st : St) (c : Ctl) (st' : St)
-    (h : memberVal b name .dot sp st = (.error c, st')) : ∃ w, c = .unsupported w := by
-  rw [memberVal_dot] at h
-  cases b <;> try (cases h; done)
-  case ref a =>
-    simp only [] at h
-    cases hc : st.heap[a]? with
-    | none => rw [hc] at h; cases h; exact ⟨_, rfl⟩
-    | some cl =>
-      rw [hc] at h
-      cases cl <;> try (cases h; done)
-      rename_i fs; simp only [] at h; cases hl : fs.lookup name <;> rw [hl] at h <;> cases h
-  case range x y i =>
-    simp only [] at h
-    split at h
-    · cases h
-    · split at h <;> cases h
-
-/-- `Member` after the base: the specification's `memberVal`. -/
-theorem member_runs (G : GCtx) (A : Act) (hA : A.OK G) (sp : Span) (ip : Nat) (stk : List SVal) (mem : Mem)
-    (st : St) (bv : Val) (name : String) (ob : Option Org) (hx : A.c[ip]? = some (.member name, sp)) :
-    match memberVal bv name .dot sp st with
-    | (.ok v, _) => Runs G.fr G.code G.lim G.s A.fn A.rest A.mp ip (⟨bv, ob⟩ :: stk) mem st.world
-        (ip + 1) (⟨v, memOrg st.heap bv name⟩ :: stk) mem st.world
-    | (.error (.unsupported _), _) => True
-    | _ => False := by
-  have hvm : ∀ it, (memberVal bv name .dot sp { (withIt G.s it).st with heap := st.world.heap, out := st.world.out }).1 =
-      (memberVal bv name .dot sp st).1 := fun it => memberVal_dot_heap bv name sp st _ rfl
-  rcases hr : memberVal bv name .dot sp st with ⟨r, st'⟩
-  rw [hr] at hvm
-  simp only at hvm
-  cases r with
-  | ok v =>
-    refine Runs.of_exec1 (fr := G.fr) (mem := mem) (fun it_ k => ?_)
-    rw [mkS_member G.code G.lim (withIt G.s it_) A.fn ip A.rest A.mp k stk mem.cells st.world A.c hA.code sp name bv ob hx,
-      hvm it_]
-    rfl
-  | error c =>
-    obtain ⟨w, rfl⟩ := memberVal_dot_error bv name sp st c st' hr
-    trivial
 
 /-- **`Frag.okXE` is simulated**, given the expression fragment at all smaller fuels. -/
 theorem px_all (G : GCtx) : ∀ (n : Nat), (∀ m, m ≤ n → PE G m) → PX G n := by
@@ -186,51 +49,13 @@ theorem px_all (G : GCtx) : ∀ (n : Nat), (∀ m, m ≤ n → PE G m) → PX G 
         rcases hx with hx | hx
         · exact hT x (Or.inl (Or.inr hx))
         · exact hT x (Or.inr (Or.inr hx))
-      simp only [cgE] at hpl ⊢
-      generalize hCB : cgE G.mod (ρS scopes) A.φ b lm = CB at hpl ⊢
-      generalize hCI : cgE G.mod (ρS scopes) A.φ i CB.2 = CI at hpl ⊢
-      obtain ⟨h12, hX⟩ := hpl.append
+      have hpl' := hpl
+      simp only [cgE] at hpl'
+      obtain ⟨h12, _⟩ := hpl'.append
       obtain ⟨hpB, hpI⟩ := h12.append
-      obtain ⟨iidx, _⟩ := hX.instr (i := .index) rfl
-      have hnX : nI [((Instr.index : SInstr), sp)] = 1 := rfl
-      simp only [nI_append, hnX] at iidx ⊢
-      rw [evalExpr_index]
-      have h1 := ihn A hA b st ip stk mem lm scopes vm hb hwb hTb (hCB ▸ hpB) hrel hsp
-      rw [hCB] at h1
-      rcases heb : evalExpr G.cfg n b st with ⟨r1, st1⟩
-      rw [heb] at h1
-      cases r1 with
-      | error c1 => exact SimGE.error_n _ h1
-      | ok bv =>
-        obtain ⟨hfr1, mem1, ob, hrun1, hml1⟩ := h1
-        simp only []
-        have hsp1 := hsp.world st1 hfr1 hrun1.inv
-        have hrel1 : StRel G.mod A.T A.N A.σ G.lim A.mp scopes vm st1.scopes mem1 := by
-          rw [hfr1]; exact hrel.memLe hml1.cells
-        have h2 := ihn A hA i st1 (ip + nI CB.1) (⟨bv, ob⟩ :: stk) mem1 CB.2 scopes vm hi hwi hTi (hCI ▸ hpI) hrel1 hsp1
-        rw [hCI] at h2
-        rcases hei : evalExpr G.cfg n i st1 with ⟨r2, st2⟩
-        rw [hei] at h2
-        cases r2 with
-        | error c2 => exact SimOE.error_after _ [⟨bv, ob⟩] hrun1 hfr1 hml1 h2
-        | ok iv =>
-          obtain ⟨hfr2, mem2, oi, hrun2, hml2⟩ := h2
-          simp only []
-          have hrun12 := (hrun1.trans hrun2).cast (Nat.add_assoc ip _ _)
-          have hidx := index_runs G A hA sp (ip + (nI CB.1 + nI CI.1)) stk mem2 st2 bv iv ob oi iidx
-          have hst := (indexVal_shape bv iv sp st2).1
-          rcases hr : indexVal bv iv sp st2 with ⟨r3, st3⟩
-          rw [hr] at hidx hst
-          simp only at hst
-          subst hst
-          have hfr : st3 = { st with out := st3.out, heap := st3.heap } := by rw [hfr2, hfr1]
-          cases r3 with
-          | ok v =>
-            exact ⟨hfr, mem2, _, (hrun12.trans hidx).cast (by omega), hml1.trans hml2⟩
-          | error c3 =>
-            cases c3 <;> first | trivial | exact hidx.elim | skip
-            intro _
-            exact hrun12.fatal hidx
+      exact index_step G A hA n sp ty b i st ip stk mem lm scopes vm hpl hrel hsp
+        (ihn A hA b st ip stk mem lm scopes vm hb hwb hTb hpB hrel hsp)
+        (fun st1 mem1 bv ob hrel1 hsp1 => ihn A hA i st1 _ (⟨bv, ob⟩ :: stk) mem1 _ scopes vm hi hwi hTi hpI hrel1 hsp1)
     case member sp ty b name mop =>
       cases mop <;> try (simp [Frag.okXE, Frag.okGE] at hok; done)
       simp only [Frag.okXE] at hok
@@ -238,31 +63,10 @@ theorem px_all (G : GCtx) : ∀ (n : Nat), (∀ m, m ≤ n → PE G m) → PX G 
       have hwb : Frag.wsGE scopes A.φ b = true := by simp [Frag.wsGE, hres, hcalls]
       have hTb : ∀ x ∈ Frag.namesGE b, x ∈ A.T := by
         intro x hx; exact hT x (by simpa [Frag.namesGE, Frag.varsGE, Frag.callsGE] using hx)
-      simp only [cgE] at hpl ⊢
-      generalize hCB : cgE G.mod (ρS scopes) A.φ b lm = CB at hpl ⊢
-      obtain ⟨hpB, hX⟩ := hpl.append
-      obtain ⟨imem, _⟩ := hX.instr (i := .member name) rfl
-      have hnX : nI [((Instr.member name : SInstr), sp)] = 1 := rfl
-      simp only [nI_append, hnX] at ⊢
-      rw [evalExpr_member]
-      have h1 := ihn A hA b st ip stk mem lm scopes vm hok hwb hTb (hCB ▸ hpB) hrel hsp
-      rw [hCB] at h1
-      rcases heb : evalExpr G.cfg n b st with ⟨r1, st1⟩
-      rw [heb] at h1
-      cases r1 with
-      | error c1 => exact SimGE.error_n _ h1
-      | ok bv =>
-        obtain ⟨hfr1, mem1, ob, hrun1, hml1⟩ := h1
-        simp only []
-        have hmr := member_runs G A hA sp (ip + nI CB.1) stk mem1 st1 bv name ob imem
-        have hst := memberVal_dot_state bv name sp st1
-        rcases hr : memberVal bv name .dot sp st1 with ⟨r3, st3⟩
-        rw [hr] at hmr hst
-        simp only at hst
-        subst hst
-        cases r3 with
-        | ok v => exact ⟨hfr1, mem1, _, (hrun1.trans hmr).cast (by omega), hml1⟩
-        | error c3 => cases c3 <;> first | trivial | exact hmr.elim
+      have hpB : Placed A.lab A.σ A.c ip (cgE G.mod (ρS scopes) A.φ b lm).1 := by
+        simp only [cgE] at hpl; exact hpl.append.1
+      exact member_step G A hA n sp ty b name st ip stk mem lm scopes hpl
+        (ihn A hA b st ip stk mem lm scopes vm hok hwb hTb hpB hrel hsp)
     case grouped sp e =>
       simp only [Frag.okXE] at hok
       rw [evalExpr]
@@ -299,7 +103,7 @@ theorem px_all (G : GCtx) : ∀ (n : Nat), (∀ m, m ≤ n → PE G m) → PX G 
           omega
     case «infix» sp ty op l r =>
       by_cases hp : Frag.pureE (.infix sp ty op l r) = true
-      · exact SimOE.of_simGE (hPEn A hA _ st ip stk mem lm scopes vm (by simp only [Frag.okGE, hp, Bool.true_or]) hws hT hpl
+      · exact SimOE.of_simGE (hPEn A hA _ st ip stk mem lm scopes vm (okE_okGE _ _ (by simp only [Frag.okGE, hp, Bool.true_or])) hws hT hpl
           hrel hsp)
       have hnp : Frag.pureE (.infix sp ty op l r) = false := by simpa using hp
       simp only [Frag.okXE, hnp, Bool.false_or, Bool.and_eq_true, Bool.not_eq_eq_eq_not, Bool.not_true] at hok
@@ -369,6 +173,22 @@ theorem px_all (G : GCtx) : ∀ (n : Nat), (∀ m, m ≤ n → PE G m) → PX G 
             intro _
             exact hrun12.fatal (RunsF.of_runsFatal ha)
     all_goals
-      exact SimOE.of_simGE (hPEn A hA _ st ip stk mem lm scopes vm (by simpa [Frag.okXE] using hok) hws hT hpl hrel hsp)
+      exact SimOE.of_simGE (hPEn A hA _ st ip stk mem lm scopes vm (okE_okGE _ _ (by simpa [Frag.okXE] using hok)) hws hT hpl hrel hsp)
+
+/-- The statement for the value positions (`Frag.okV`). -/
+def PV (G : GCtx) (fuel : Nat) : Prop :=
+  ∀ (A : Act), A.OK G → ∀ (e : Expr) (st : St) (ip : Nat) (stk : List SVal) (mem : Mem) (lm : LM)
+    (scopes : CScopes) (vm : List (String × Nat)),
+    Frag.okV G.fr e = true → Frag.wsGE scopes A.φ e = true → (∀ x ∈ Frag.namesGE e, x ∈ A.T) →
+    Placed A.lab A.σ A.c ip (cgE G.mod (ρS scopes) A.φ e lm).1 →
+    StRel G.mod A.T A.N A.σ G.lim A.mp scopes vm st.scopes mem → SpecOK G A.mp st →
+    SimOE G A ip (nI (cgE G.mod (ρS scopes) A.φ e lm).1) stk mem st (evalExpr G.cfg fuel e st)
+
+theorem pv_all (G : GCtx) (n : Nat) (hPE : ∀ m, m ≤ n → PE G m) : PV G n := by
+  intro A hA e st ip stk mem lm scopes vm hok hws hT hpl hrel hsp
+  simp only [Frag.okV, Bool.or_eq_true] at hok
+  rcases hok with hok | hok
+  · exact px_all G n hPE A hA e st ip stk mem lm scopes vm hok hws hT hpl hrel hsp
+  · exact SimOE.of_simGE (hPE n (Nat.le_refl _) A hA e st ip stk mem lm scopes vm hok hws hT hpl hrel hsp)
 
 end HmsProofs.Sim
